@@ -152,10 +152,13 @@ def run_comprehension(ex, e, env):
     under the loop rule; the invariants may mention `_out` next to `_done` / `_rest` / `_i`, the
     step hints also `_elt` and `_out0` (element just appended, list before the append).
     Returns None when the contract has no entry for this comprehension."""
+    e = getattr(ex, "_comp_alias", {}).get(id(e), e) if comp_ordinal(ex.fn, e) < 0 else e
     k = comp_ordinal(ex.fn, e)
     spec = ex.contract.get("comps", {}).get(k)
-    if spec is None or len(e.generators) != 1:
+    if spec is None or len(e.generators) not in (1, 2):
         return None
+    if len(e.generators) == 2:
+        return run_comprehension2(ex, e, env, k, spec)
     g = e.generators[0]
     # step hints may mention `_elt` (the element just appended) and `_out0` (the list before it)
     stmts = [ast.Assign([ast.Name("_elt", ast.Store())], e.elt),
@@ -173,6 +176,34 @@ def run_comprehension(ex, e, env):
     env2 = dict(env)
     env2["_out"] = Z(ex.S.nil, fresh="shallow", origin="comprehension")
     run_for(ex, loop, env2, spec=spec, label=f"comp{k}")
+    return env2["_out"]
+
+
+def run_comprehension2(ex, e, env, k, spec):
+    """Two generators:  _out = [];  for x in A:  for y in B(x): if <ifs>: _out.append(elt)
+    with the outer loop's invariant under "comps"[k] and the inner one under "comps"[k]["inner"]."""
+    g1, g2 = e.generators
+    stmts = [ast.Assign([ast.Name("_elt", ast.Store())], e.elt),
+             ast.Assign([ast.Name("_out0", ast.Store())],
+                        ast.Call(ast.Name("list", ast.Load()), [ast.Name("_out", ast.Load())], [])),
+             ast.Expr(ast.Call(ast.Attribute(ast.Name("_out", ast.Load()), "append", ast.Load()),
+                               [ast.Name("_elt", ast.Load())], []))]
+    for c in reversed(g2.ifs):
+        stmts = [ast.If(c, stmts, [])]
+    inner = ast.For(g2.target, g2.iter, stmts, [], None)
+    body = [ast.Assign([ast.Name("_out_outer", ast.Store())],
+                       ast.Call(ast.Name("list", ast.Load()), [ast.Name("_out", ast.Load())], [])), inner]
+    for c in reversed(g1.ifs):
+        body = [ast.If(c, body, [])]
+    outer = ast.For(g1.target, g1.iter, body, [], None)
+    for n in ast.walk(outer):
+        if not hasattr(n, "lineno"):
+            n.lineno = e.lineno
+            n.col_offset = e.col_offset
+    ex.__dict__.setdefault("_synthetic_loop_specs", {})[id(inner)] = (spec.get("inner", {}), f"comp{k}.inner")
+    env2 = dict(env)
+    env2["_out"] = Z(ex.S.nil, fresh="shallow", origin="comprehension")
+    run_for(ex, outer, env2, spec=spec, label=f"comp{k}")
     return env2["_out"]
 
 
@@ -201,6 +232,9 @@ def run_dict_comprehension(ex, e, env):
 
 
 def run_for(ex, s, env, spec=None, label=None):
+    syn = getattr(ex, "_synthetic_loop_specs", {}).get(id(s))
+    if spec is None and syn is not None:
+        spec, label = syn
     k0 = ordinal(ex.fn, s) if spec is None else label
     spec0 = ex.contract.get("loops", {}).get(k0) if spec is None else spec
     if spec0 is not None and "abstract" in spec0:
@@ -247,6 +281,9 @@ def run_for(ex, s, env, spec=None, label=None):
         e2["_i"] = Z(idx)
         return e2
 
+    # lemma instances (or assertions) wanted before the invariant is established
+    for h in spec.get("pre_hints", []):
+        C.assume_hint(ex, h, inv_env(S.nil, seq, z3.IntVal(0)), s.lineno, f"loop{k}:pre-hint")
     # establish
     for j, inv in enumerate(spec.get("invariant", [])):
         g = ex.to_bool(C.eval_spec_expr(ex, inv, inv_env(S.nil, seq, z3.IntVal(0))))
